@@ -272,6 +272,17 @@ func (f *Frame) compare(x *ssa.BinOp, xv, yv AV) AV {
 			return ABool{nf}
 		}
 		// identity comparison of references (err == packet.ErrTCPDataTooShort)
+		for _, pair := range [][2]AV{{xv, yv}, {yv, xv}} {
+			if ref, ok := pair[0].(ARef); ok && ref.idSym != nil {
+				if id, ok := f.an.u.identityOf(pair[1]); ok {
+					at := atomEQ(affSym(ref.idSym), affConst(id))
+					if x.Op == token.NEQ {
+						return ABool{formNot(formAtom(at))}
+					}
+					return ABool{formAtom(at)}
+				}
+			}
+		}
 		s := f.an.u.boolSym(fmt.Sprintf("%seq(%s,%s)", f.key, describeAV(xv), describeAV(yv)))
 		fm := formAtom(atomEQ(affSym(s), affConst(1)))
 		if x.Op == token.NEQ {
@@ -360,6 +371,18 @@ func (f *Frame) typeAssert(x *ssa.TypeAssert) {
 				known, inner = true, ii.val
 			}
 		}
+		if !known && !iv.dynUnknown && len(iv.dynTypes) > 0 {
+			all := true
+			for _, t := range iv.dynTypes {
+				if !types.Identical(t, x.AssertedType) {
+					all = false
+				}
+			}
+			nf := f.nilness(iv)
+			if all && f.state().entailsForm(formNot(nf)) {
+				known = true
+			}
+		}
 	}
 	if !x.CommaOk {
 		if _, isIface := x.AssertedType.Underlying().(*types.Interface); !isIface || true {
@@ -416,7 +439,7 @@ func (f *Frame) call(x *ssa.Call) AV {
 	if !f.an.logCalls || f.an.quiet > 0 {
 		return f.call1(x, nil)
 	}
-	rec := &CallRec{instr: x, frame: f, state: f.cur}
+	rec := &CallRec{instr: x, frame: f, state: f.cur, ghost: copyGhost(f.ghost)}
 	f.an.calls = append(f.an.calls, rec)
 	res := f.call1(x, rec)
 	rec.res = res
@@ -626,6 +649,54 @@ func (f *Frame) knownExternal(x *ssa.Call, callee *ssa.Function, args []AV, key 
 	case "errors.New", "fmt.Errorf":
 		return AIface{val: AOpaque{key, x.Type()}, typ: types.Typ[types.Invalid]}, true
 	}
+	if strings.HasPrefix(name, "(*bytes.Buffer).") && len(args) >= 1 {
+		if p, ok := args[0].(APtr); ok && p.obj != nil {
+			bkey := p.obj.key + f.pathNames(p.obj, p.path)
+			g := f.ghostOf(bkey)
+			fresh := func(ln Aff) ghostBuf {
+				for fr := f; fr != nil; fr = fr.parent {
+					if fr.ghostTouched == nil {
+						fr.ghostTouched = map[string]bool{}
+					}
+					fr.ghostTouched[bkey] = true
+				}
+				return ghostBuf{ln: ln, root: &Root{key: fmt.Sprintf("buf(%s)#%d", bkey, g.ver+1), ln: ln}, ver: g.ver + 1}
+			}
+			switch strings.TrimPrefix(name, "(*bytes.Buffer).") {
+			case "Len":
+				return AInt{a: g.ln}, true
+			case "Bytes":
+				return ASlice{root: g.root, off: Aff{}, ln: g.ln, elem: types.Typ[types.Uint8]}, true
+			case "Reset":
+				f.ghost[bkey] = fresh(Aff{})
+				return ATuple{}, true
+			case "Write":
+				if s, ok := args[1].(ASlice); ok {
+					f.ghost[bkey] = fresh(g.ln.add(s.ln))
+					return ATuple{AInt{a: s.ln}, ANil{}}, true
+				}
+			case "Next":
+				if n, ok := args[1].(AInt); ok {
+					na := f.use(n, "Buffer.Next")
+					st := f.state()
+					if len(st) > 0 && st.entails(atomLE(na, g.ln)) && st.entails(atomGE(na, affConst(0))) {
+						f.ghost[bkey] = fresh(g.ln.sub(na))
+						return ASlice{root: g.root, off: Aff{}, ln: na, elem: types.Typ[types.Uint8]}, true
+					}
+					// fewer bytes than requested may be returned
+					m := f.an.u.sym(key+":nextlen", 0, maxLen)
+					f.assume(atomLE(affSym(m), na), atomLE(affSym(m), g.ln))
+					f.ghost[bkey] = fresh(g.ln.sub(affSym(m)))
+					return ASlice{root: g.root, off: Aff{}, ln: affSym(m), elem: types.Typ[types.Uint8]}, true
+				}
+			case "Truncate":
+				if n, ok := args[1].(AInt); ok {
+					f.ghost[bkey] = ghostBuf{ln: f.use(n, "Buffer.Truncate"), root: g.root, ver: g.ver + 1}
+					return ATuple{}, true
+				}
+			}
+		}
+	}
 	// encoding/binary byte orders
 	var be, isBin bool
 	switch {
@@ -704,6 +775,20 @@ func (f *Frame) inline(x *ssa.Call, callee *ssa.Function, args []AV, key string)
 	f.child[x] = ch
 	ch.run(f.cur)
 	sites := ch.returns
+	// ghost state after the call: where all return sites agree
+	if len(sites) > 0 {
+		merged := copyGhost(sites[0].ghost)
+		for _, s := range sites[1:] {
+			for k, v := range merged {
+				w, ok := s.ghost[k]
+				if !ok || !w.ln.equal(v.ln) || w.root != v.root {
+					ln := f.an.u.sym(fmt.Sprintf("buflen(%s)@%s", k, key), 0, maxLen)
+					merged[k] = ghostBuf{ln: affSym(ln), root: &Root{key: fmt.Sprintf("buf(%s)@%s", k, key), ln: affSym(ln)}, ver: v.ver + 1}
+				}
+			}
+		}
+		f.ghost = merged
+	}
 	if len(sites) == 0 {
 		f.cur = nil
 		return f.symbolicResult(key, x.Type())
